@@ -7,6 +7,7 @@ import (
 	"os"
 	"path/filepath"
 	"strings"
+	"syscall"
 	"testing"
 	"time"
 )
@@ -46,6 +47,7 @@ type c19Env struct {
 	srcIP                         string // source address of observation clients ("" = default)
 	noHome                        bool   // start the server without HOME / XDG_CONFIG_HOME in its environment
 	iniPad                        int    // > 0: configuration files carry this many bytes of comment lines before and inside [server]
+	fifo                          bool   // --config / PS3NETSRV_CONFIG_FILE name a FIFO that a writer feeds (as with --config <(...))
 }
 
 func newC19Env(base string) *c19Env {
@@ -119,6 +121,7 @@ func (e *c19Env) start(assigns []c19Assign, wait time.Duration) (*BinSrv, error)
 	os.Remove(filepath.Join(e.cwd, "config.ini"))
 	os.Remove(filepath.Join(e.home, "xdg", "ps3netsrv-go", "config.ini"))
 	pre := []string{}
+	var fifos []string
 	for ch, lines := range ini {
 		content := "[server]\n" + strings.Join(lines, "\n") + "\n"
 		if e.iniPad > 0 {
@@ -128,11 +131,11 @@ func (e *c19Env) start(assigns []c19Assign, wait time.Duration) (*BinSrv, error)
 		switch ch {
 		case "configflag":
 			p := filepath.Join(e.base, "flag.ini")
-			must(os.WriteFile(p, []byte(content), 0o644))
+			fifos = append(fifos, e.writeConfig(p, content)...)
 			pre = append(pre, "--config="+p)
 		case "configenv":
 			p := filepath.Join(e.base, "env.ini")
-			must(os.WriteFile(p, []byte(content), 0o644))
+			fifos = append(fifos, e.writeConfig(p, content)...)
 			env = append(env, "PS3NETSRV_CONFIG_FILE="+p)
 		case "cwdini":
 			must(os.WriteFile(filepath.Join(e.cwd, "config.ini"), []byte(content), 0o644))
@@ -141,7 +144,35 @@ func (e *c19Env) start(assigns []c19Assign, wait time.Duration) (*BinSrv, error)
 		}
 	}
 	args = append(pre, args...)
-	return startBin(args, env, e.cwd, filepath.Join(e.base, "server.log"), wait)
+	b, err := startBin(args, env, e.cwd, filepath.Join(e.base, "server.log"), wait)
+	// a writer whose FIFO was never opened by the server is still blocked in open(2): release it
+	for _, p := range fifos {
+		if f, err := os.OpenFile(p, os.O_RDONLY|syscall.O_NONBLOCK, 0); err == nil {
+			time.Sleep(20 * time.Millisecond)
+			f.Close()
+		}
+	}
+	return b, err
+}
+
+// writeConfig stores a configuration file; with e.fifo it is a FIFO fed by a writer goroutine (what a shell's
+// process substitution gives the server). Returns the FIFO paths created.
+func (e *c19Env) writeConfig(p, content string) []string {
+	os.Remove(p)
+	if !e.fifo {
+		must(os.WriteFile(p, []byte(content), 0o644))
+		return nil
+	}
+	must(syscall.Mkfifo(p, 0o644))
+	go func() {
+		f, err := os.OpenFile(p, os.O_WRONLY, 0) // blocks until a reader opens the FIFO
+		if err != nil {
+			return
+		}
+		f.Write([]byte(content))
+		f.Close()
+	}()
+	return []string{p}
 }
 
 // observe returns the effective value of a setting as seen from outside.
@@ -300,12 +331,13 @@ func (e *c19Env) observe(b *BinSrv, setting string, expect string) (got string, 
 func TestC19(t *testing.T) {
 	r := NewReporter(t)
 	defer r.Done()
-	r.Rule("9 settings x 6 channels (flag, environment variable, --config file, PS3NETSRV_CONFIG_FILE file, ./config.ini, user config dir) alone; command-line flag vs every other channel with a conflicting value; malformed values of whitelist / max-clients / root / read-timeout on every channel; configuration files with 3000 / 5000 / 70000 bytes of comment lines around the keys; every case is one start of the real binary whose behaviour is observed from outside; oracle: flag wins, otherwise the single channel has its effect; malformed -> non-zero exit and never listening; distinct by (setting, channel assignment)")
+	r.Rule("9 settings x 6 channels (flag, environment variable, --config file, PS3NETSRV_CONFIG_FILE file, ./config.ini, user config dir) alone; command-line flag vs every other channel with a conflicting value; malformed values of whitelist / max-clients / root / read-timeout on every channel; configuration files with 3000 / 5000 / 70000 bytes of comment lines around the keys; --config naming a FIFO; every case is one start of the real binary whose behaviour is observed from outside; oracle: flag wins, otherwise the single channel has its effect; malformed -> non-zero exit and never listening; distinct by (setting, channel assignment)")
 	base := filepath.Join(scratchBase(), sprintf("verifh-c19-%d", os.Getpid()))
 	defer os.RemoveAll(base)
 	type tc struct {
 		noHome  bool
 		iniPad  int
+		fifo    bool
 		name    string
 		assigns []c19Assign
 		setting string
@@ -348,6 +380,18 @@ func TestC19(t *testing.T) {
 			}
 		}
 	}
+	// the configuration file is a stream (FIFO, as with --config <(...)): no size, not seekable, read once
+	// (only --config: the default locations and PS3NETSRV_CONFIG_FILE go through kong.Configuration, which opens every
+	// candidate twice - an existence probe, then the load - and therefore cannot consume a stream; that is the
+	// library's documented way of probing optional files, not something the property promises)
+	for _, ch := range []string{"configflag"} {
+		cases = append(cases, tc{fifo: true, name: "json-log via " + ch + " (FIFO)", setting: "json-log", expect: "A", assigns: []c19Assign{{ch, "json-log", "A"}}})
+		cases = append(cases, tc{fifo: true, name: "allow-write via " + ch + " (FIFO)", setting: "allow-write", expect: "A", assigns: []c19Assign{{ch, "allow-write", "A"}}})
+		cases = append(cases, tc{fifo: true, name: "allow-write: flag vs " + ch + " (FIFO)", setting: "allow-write", expect: "A", assigns: []c19Assign{{"flag", "allow-write", "A"}, {ch, "allow-write", "B"}}})
+		for _, bad := range [][2]string{{"client-whitelist", "not-an-address"}, {"max-clients", "many"}, {"read-timeout", "soon"}} {
+			cases = append(cases, tc{fifo: true, name: sprintf("%s malformed via %s (FIFO)", bad[0], ch), setting: bad[0], bad: true, assigns: []c19Assign{{ch, bad[0], bad[1]}}})
+		}
+	}
 	// two configuration files present at once, each carrying a different setting: both must have their effect
 	filePairs := [][2]string{{"userini", "cwdini"}, {"cwdini", "configenv"}, {"userini", "configflag"}, {"configenv", "userini"}, {"configflag", "cwdini"}}
 	twoSettings := [][2]string{{"allow-write", "json-log"}, {"client-whitelist", "allow-write"}, {"max-clients", "debug"}, {"root", "allow-write"}}
@@ -384,6 +428,7 @@ func TestC19(t *testing.T) {
 		e := newC19Env(base)
 		e.noHome = c.noHome
 		e.iniPad = c.iniPad
+		e.fifo = c.fifo
 		a, _ := e.values(c.setting)
 		var assigns []c19Assign
 		for _, x := range c.assigns {
